@@ -168,7 +168,7 @@ def aperture_case(draw):
     thorough=30000,
     tol="values exact (1 / 0) outside a float32 band around the edge: 8*eps32 relative (hard), half a pixel + 16*eps32 (soft); range [0,1] exact",
     rule="the cutoff lies strictly inside the grid's angular range: pixels with alpha>0 that must be 1 and pixels that must be 0 both exist",
-    nontrivial_floor=0.3,
+    nontrivial_floor=0.2,
 )
 def check_aperture_grid(case, ctx):
     from abtem.transfer import Aperture
@@ -225,7 +225,7 @@ def envelope_case(draw):
     thorough=30000,
     tol="range [0, 1] exact; value at the zero-angle pixel within 1e-6 of 1",
     rule="non-zero spread (and, for the spatial envelope, a non-zero aberration) so that the envelope is not identically 1",
-    nontrivial_floor=0.3,
+    nontrivial_floor=0.2,
 )
 def check_envelopes(case, ctx):
     from abtem.transfer import SpatialEnvelope, TemporalEnvelope
@@ -276,7 +276,7 @@ def ctf_case(draw):
     thorough=25000,
     tol="|CTF| <= aperture + 1e-6 (float32 modulus of a unit phasor); exact 0 beyond the edge band",
     rule="finite cutoff inside the grid's angular range and at least one of aberrations / focal spread / angular spread non-zero",
-    nontrivial_floor=0.25,
+    nontrivial_floor=0.18,
 )
 def check_ctf_le_aperture(case, ctx):
     from abtem.transfer import CTF, Aperture
